@@ -14,13 +14,14 @@ RULE = ("every history of <= N writer-API operations (alphabet in coverage.bound
         "distinct = by digest of the reference document")
 
 MULTI = "line one\n  two more\n\nafter blank"
+INDENTED = "  every line\n    has its own\n  leading spaces"
 TITLES = ["T", "Title 7", "A title of exactly forty characters long."[:40]]
 
 # ---------------------------------------------------------------- alphabet
 
 
 def alphabet():
-    return [("text", "single line"), ("text", MULTI), ("field", "fname", "fval"),
+    return [("text", "single line"), ("text", MULTI), ("text", INDENTED), ("field", "fname", "fval"),
             ("bul", "i1", "i2"), ("enum", "e1", "e2"),
             ("dir", "note"), ("dir", "function", "f(a b)"),
             ("opt", "maxdepth", "2"),
@@ -211,19 +212,21 @@ def shard(job):
     refmap = {}
     nontriv = set()
     stack = [prefix]
+    other = None
     while stack:
         ops = stack.pop()
         v, rd, od, nt = check(ops, title, headers)
         n += 1
         if nt:
             nontriv.add(rd)
-        prev = refmap.setdefault(rd, od)
-        if prev != od:
+        prev = refmap.setdefault(rd, (od, ops))
+        if prev[0] != od:
             v = v + ["differential: an equal document reached by another history serialises differently"]
+            other = prev[1]
         for m in v:
             c = m.split(" ")[0] + (" " + m.split(":")[1].strip()[:40] if m.startswith("purity") else "")
             if c not in viols or len(viols[c][0]) > len(ops):
-                viols[c] = (ops, v)
+                viols[c] = (ops, v, other if c.startswith("differential") else None)
         if len(ops) < depth:
             kinds, opts = _stack_after(ops)
             for op in reversed(enabled(kinds, opts[-1], maxnest)):
@@ -269,19 +272,25 @@ def run(ctx):
             ctx.cov["traces_validated_against_impl"] += r["n"]
             ctx.cov["transitions"] += r["n"]
             ctx.nontrivial |= r["nontriv"]
-            for c, (ops, v) in r["viols"].items():
-                best.setdefault(c, []).append((len(ops), [list(o) for o in ops], v))
+            for c, (ops, v, oth) in r["viols"].items():
+                best.setdefault(c, []).append((len(ops), [list(o) for o in ops], v, [list(o) for o in oth] if oth else None))
             if d <= 5:  # cross-shard differential (kept in memory only up to this size)
-                for rd, od in r["refmap"].items():
-                    if merged.setdefault(rd, od) != od:
-                        ctx.violation({"refdoc": rd, "title": title, "headers": headers, "ops": [list(o) for o in job[0]]},
-                                      ["differential: equal documents reached through different shards serialise differently"])
-            ctx.obs |= set(r["refmap"].values())
+                for rd, (od, ops) in r["refmap"].items():
+                    prev = merged.setdefault(rd, (od, ops))
+                    if prev[0] != od:
+                        ctx.violation({"ops": [list(o) for o in ops], "other_ops": [list(o) for o in prev[1]],
+                                       "title": title, "headers": headers},
+                                      ["differential: equal documents reached through different shards serialise differently"],
+                                      cls="differential")
+            ctx.obs |= {od for od, _ in r["refmap"].values()}
             ctx.cov["states"] += len(r["refmap"])
         for c, lst in best.items():  # shortest history first: the easiest counter-example to read
             lst.sort(key=lambda t: (t[0], t[1]))
-            for _, ops, v in lst:
-                ctx.violation({"ops": ops, "title": title, "headers": headers}, v, cls=c)
+            for _, ops, v, oth in lst:
+                case = {"ops": ops, "title": title, "headers": headers}
+                if oth:
+                    case["other_ops"] = oth
+                ctx.violation(case, v, cls=c)
         ctx.cov["max_depth"] = max(ctx.cov["max_depth"], d)
         ctx.cov["spaces"][f"title={title!r} headers={'default' if headers is None else ''.join(headers)} depth<={d}"] = \
             sum(r["n"] for r in results)
@@ -299,5 +308,9 @@ def replay(case):
         return []
     ops = [tuple(o) for o in case["ops"]]
     hdr = tuple(case["headers"]) if case.get("headers") else None
-    v, _, _, _ = check(ops, case["title"], hdr)
+    v, _, od, _ = check(ops, case["title"], hdr)
+    if case.get("other_ops"):
+        _, _, od2, _ = check([tuple(o) for o in case["other_ops"]], case["title"], hdr)
+        if od != od2:
+            v = v + ["differential: an equal document reached by another history serialises differently"]
     return v
